@@ -298,7 +298,7 @@ def _discharge1(pc, goal, want_smt2=False, all_backends=False, scale=1):
     for t in pc:
         flat.extend(_goal_conjuncts(t))
     qf = [t for t in flat if not _has_quantifier(t)]
-    if not z3.is_true(goal) and not all_backends and not want_smt2:
+    if not z3.is_true(goal) and not all_backends:
         t0 = time.time()
         if _by_rewriting(qf, goal):
             return Verdict('unsat', 'z3-%s(rewriting)' % z3.get_version_string(), time.time() - t0)
